@@ -168,6 +168,14 @@ Definition count_bad (ls : list line) : nat := length (filter (fun l => match l 
 Fixpoint replace_byte (a : N) (b : bytes) (s : bytes) : bytes :=
   match s with [] => [] | c :: r => (if c =? a then b else [c]) ++ replace_byte a b r end.
 
+(* %Type names the bare constructor of Type: its canonical spelling is the constructor name *)
+Fixpoint bare_names (s : bytes) : bytes :=
+  match s with
+  | 37 :: c :: r => (if (65 <=? c) && (c <=? 90) then c + 32 else c) :: bare_names r
+  | c :: r => c :: bare_names r
+  | [] => []
+  end.
+
 Definition is_true_flag (tok : bytes) : bool :=
   match parse_param tok with
   | Some {| p_ty := PCond _ TTTrue |} => true
@@ -184,7 +192,7 @@ Definition canon_tok (tok : bytes) : bytes :=
     if beq ty (lit "bytes") then nm ++ lit "string"
     else if has_suffix (lit "?bytes") ty then nm ++ firstn (length ty - 5) ty ++ lit "string"
     else tok in
-  replace_byte 125 [] (replace_byte 123 [] (replace_byte 62 [] (replace_byte 60 [sp] tok1))).
+  bare_names (replace_byte 125 [] (replace_byte 123 [] (replace_byte 62 [] (replace_byte 60 [sp] tok1)))).
 
 Definition canonical (s : bytes) : bytes :=
   let toks := nonempty (split_on sp s) in
